@@ -145,16 +145,21 @@ func (r *run) execute() {
 	r.Text = r.X.text()
 	r.Sched, r.Out = safeParse(&r.X, r.Text)
 	r.Nexts = []nextEv{}
-	// the zone the expression is to be read in: its TZ= prefix, else the local zone
-	var zone *time.Location
-	if r.X.TZ != "" && r.X.TZKnown {
+	// the zone the expression is to be read in: its TZ= prefix, else the zone of the instants handed to Next
+	var zone, carry *time.Location
+	switch {
+	case r.X.TZ != "" && r.X.TZKnown:
 		zone = mustLoad(r.X.TZ)
-	} else {
+		carry = zone
+		if r.Carry != "same" {
+			carry = locFor(r.Carry)
+		}
+	case r.Carry == "zone":
+		zone = locFor(r.Zone)
+		carry = zone
+	default:
 		zone = time.Local
-	}
-	carry := zone
-	if r.X.TZ != "" && r.Carry != "same" {
-		carry = locFor(r.Carry)
+		carry = zone
 	}
 	start := r.Start
 	lo, hi := start.Unix()-2*86400, start.Unix()+1829*86400
